@@ -24,6 +24,7 @@ namespace Givaro {
     template <class Domain>
     inline typename Poly1Dom<Domain,Dense>::Rep& Poly1Dom<Domain,Dense>::axpy  (Rep& r, const Rep& a, const Rep& x, const Rep& y) const
     {
+        if (&r == &y) { Rep T; this->axpy(T, a, x, y); return this->assign(r, T); } // r may be the same object as y
         return this->addin( this->mul(r,a,x), y );
     }
 
@@ -31,6 +32,7 @@ namespace Givaro {
     template <class Domain>
     inline typename Poly1Dom<Domain,Dense>::Rep& Poly1Dom<Domain,Dense>::axpy  (Rep& r, const Type_t& a, const Rep& x, const Rep& y) const
     {
+        if (&r == &x || &r == &y) { Rep T; this->axpy(T, a, x, y); return this->assign(r, T); } // r may be the same object as x or y
         typename Rep::const_iterator ix = x.begin(), iy = y.begin();
         if (y.size() > x.size()) {
             r.resize(y.size());
@@ -115,10 +117,12 @@ namespace Givaro {
     // -- axmy: r <- a * x - y
     template <class Domain>
     inline typename Poly1Dom<Domain,Dense>::Rep& Poly1Dom<Domain,Dense>::axmy  (Rep& r, const Rep& a, const Rep& x, const Rep& y) const{
+        if (&r == &y) { Rep T; this->axmy(T, a, x, y); return this->assign(r, T); } // r may be the same object as y
         return this->subin(this->mul(r, a, x),y);
     }
     template <class Domain>
     inline typename Poly1Dom<Domain,Dense>::Rep& Poly1Dom<Domain,Dense>::axmy  (Rep& r, const Type_t& a, const Rep& x, const Rep& y) const{
+        if (&r == &y) { Rep T; this->axmy(T, a, x, y); return this->assign(r, T); } // r may be the same object as y
         return this->subin(this->mul(r, a, x),y);
     }
     // -- axmyin: r <- a * x - r
